@@ -395,7 +395,7 @@ func runC17(c *Ctx) {
 				if se, ok := x.X.(*ast.SelectorExpr); ok {
 					if _, isMap := info.TypeOf(se).Underlying().(*types.Map); isMap {
 						n++
-						if len(fc.heldAt(x)) == 0 {
+						if len(normHeld(fc.heldAt(x), accessIsWrite(fd.Body, se))) == 0 {
 							okL = false
 						}
 					}
@@ -403,7 +403,7 @@ func runC17(c *Ctx) {
 			case *ast.CallExpr:
 				if se, ok := x.Fun.(*ast.SelectorExpr); ok && se.Sel.Name == "Apply" {
 					n++
-					if len(fc.heldAt(x)) == 0 {
+					if len(normHeld(fc.heldAt(x), true)) == 0 {
 						okL = false
 					}
 				}
